@@ -41,6 +41,6 @@ CFG = {
         "periods are whole seconds; instants up to 2^50 s after genesis (domain of C16)",
         "a resharing starts after the traffic of the previous DKG has ended (the engine waits for a quiet network between epochs)",
     ],
-    "level_text": "For ALL participant lists, permutations, thresholds, QUAL sets/orders and commitments: C06_order_independent/C06_agreement (two nodes with permuted Remaining++Joining, same terms and same black-box outcome build groups equal up to node listing order with equal hash inputs; identical in epoch 1), C06_index_alignment/C06_share_on_polynomial/C06_threshold_signing (group index i carries the key of DKG participant i; with the kyber contract the share lies on the public polynomial at the node's own index and any threshold of shares recovers a signature valid under commits[0]), C06_terms_agree, C06_sorted_unique (unstable in-place sort is canonical under distinct keys), C06_sort_in_place_is_permutation, C06_echo_delivery (with the loop shapes of internal/dkg/broadcast.go read from the source on every run - one sender per other participant, broadcast and broadcastDirect range over all senders, checked as the DEcho case - every bundle seen by one node is re-sent to every other participant; C06_echo_needs_all_senders shows the obligation is necessary). Transition time: the full agreement statement is REFUTED in the faithful model (C06_transition_agree_refuted, F15: computed from each node's own clock) and proved with the carve-out 'same round or first epoch' (C06_transition_time, C06_transition_skew gives the exact condition and amount). The model is compared on every run with SortedByPublicKey, setupDKG and asGroup through add-only hooks and with the finished states of real multi-node dkg.Process runs (real kyber DKG, bolt stores, scripted delivery schedules including exactly one lost or late direct transmission of a deal/response bundle towards each receiver rank in key order, which the echo broadcast must repair).",
+    "level_text": "For ALL participant lists, permutations, thresholds, QUAL sets/orders and commitments: C06_order_independent/C06_agreement (two nodes with permuted Remaining++Joining, same terms and same black-box outcome build groups equal up to node listing order with equal hash inputs; identical in epoch 1), C06_index_alignment/C06_share_on_polynomial/C06_threshold_signing (group index i carries the key of DKG participant i; with the kyber contract the share lies on the public polynomial at the node's own index and any threshold of shares recovers a signature valid under commits[0]), C06_terms_agree, C06_sorted_unique (unstable in-place sort is canonical under distinct keys), C06_sort_in_place_is_permutation, C06_echo_delivery (with the loop shapes of internal/dkg/broadcast.go read from the source on every run - one sender per other participant, broadcast and broadcastDirect range over all senders, checked as the DEcho case - every bundle seen by one node is re-sent to every other participant; C06_echo_needs_all_senders shows the obligation is necessary), C06_phase_window (with the phaser of startDKGExecution built from config.TimeBetweenDKGPhases - read from the source on every run, DPhaser case - a bundle arriving within the configured phase duration is processed in its phase; C06_phase_needs_configured_duration shows the obligation is necessary). Transition time: the full agreement statement is REFUTED in the faithful model (C06_transition_agree_refuted, F15: computed from each node's own clock) and proved with the carve-out 'same round or first epoch' (C06_transition_time, C06_transition_skew gives the exact condition and amount). The model is compared on every run with SortedByPublicKey, setupDKG and asGroup through add-only hooks and with the finished states of real multi-node dkg.Process runs (real kyber DKG, bolt stores, scripted delivery schedules including exactly one lost or late direct transmission of a deal/response bundle towards each receiver rank in key order, which the echo broadcast must repair, and one deal/response bundle reaching one holder (all copies) after the kick-off grace period but well inside the configured phase duration).",
     "level_note": "Kernel + vm_compute; no axioms. Kyber DKG and tbls are premises (black boxes), BLAKE2b uninterpreted; message-timing independence of the kyber/echo-broadcast layer is tested by schedules, not proved. Transition-time agreement holds only when the nodes complete within one beacon round (F15, replayed on the real code).",
 }
